@@ -23,6 +23,7 @@ func (cfp *CachedFP) GetFP(fileName string) (fp *os.File, err error) {
 	}
 	cfp.fp, err = os.OpenFile(fileName, os.O_RDWR, ownerAllPerm)
 	if err != nil {
+		cfp.fp, cfp.fileName = nil, "" // nothing is cached any more (the previous file was closed above)
 		return nil, fmt.Errorf("open cached filepath: %w", err)
 	}
 	cfp.fileName = fileName
